@@ -5,6 +5,10 @@ from ..engines import labelkind as LK
 
 
 def run(ctx):
+    # language-level slips in the modules the property is anchored in (engine Y)
+    from ..engines import gotchas as GY
+    GY.run(ctx, ('tree_searcher', 'rule_db.base', 'equiv_db'))
+    ctx.floor("Y", 1)
     ctx.extra["explanation"] = (
         "static analysis (ast, no execution): label-kind inference (raw label vs equivalence "
         "representative) at every call into tree_searcher and every membership test on the "
